@@ -21,6 +21,7 @@ thread_local! {
     static EXPIRED: Cell<bool> = Cell::new(false);
     static REPAIR_SWAP: Cell<bool> = Cell::new(false);
     static LAST_DEADLINE: Cell<Option<Instant>> = Cell::new(None);
+    static DEADLINE_MIXED: Cell<bool> = Cell::new(false);
 }
 
 /// The deadline most recently passed to `deadline_exceeded` on this thread
@@ -32,10 +33,23 @@ pub fn last_deadline() -> Option<Instant> {
 /// Forgets the recorded deadline.
 pub fn reset_last_deadline() {
     LAST_DEADLINE.with(|c| c.set(None));
+    DEADLINE_MIXED.with(|c| c.set(false));
+}
+
+/// True if, since the last reset, `deadline_exceeded` was handed two different deadline values.
+pub fn deadline_values_mixed() -> bool {
+    DEADLINE_MIXED.with(|c| c.get())
 }
 
 pub(crate) fn note_deadline(deadline: Instant) {
-    LAST_DEADLINE.with(|c| c.set(Some(deadline)));
+    LAST_DEADLINE.with(|c| {
+        if let Some(prev) = c.get() {
+            if prev != deadline {
+                DEADLINE_MIXED.with(|m| m.set(true));
+            }
+        }
+        c.set(Some(deadline));
+    });
 }
 
 /// Installs the virtual clock on this thread.  The probe with 0-based index
